@@ -194,7 +194,9 @@ def fork_entry():
             {"name": "Top", "regions": [["A", "S"]], "kinds": {"S": "sub:Sub"},
              "rows": ["A + E0 / a0 -> S", "A + E1 [g0] / a1 -> S.K0", "A + E2 / a2 -> S.K0|S.K1",
                       "A + E3 [g1] / a3 -> S.K0|S.K1|S.K2", "A + E4 / a4 -> S.EP", "A + E5 -> S.K2",
-                      "S + E6 [g2] / a5 -> A", "A + E6 / a12 -> S.K1|S.K2"]},
+                      "S + E6 [g2] / a5 -> A", "A + E6 / a12 -> S.K1|S.K2",
+                      # guard-only rows (their own row kind in back) into an explicit entry, a fork and an entry point
+                      "A + E0 [g7] -> S.K1", "A + E2 [g8] -> S.K0|S.K2", "A + E4 [g9] -> S.EP"]},
             {"name": "Sub", "regions": [["P0", "K0", "Q0", "EP"], ["P1", "K1"], ["P2", "K2"]],
              "kinds": {"K0": "explicit", "K1": "explicit", "K2": "explicit", "EP": "entry_pt"},
              "rows": ["P0 + E0 [g3] / a6 -> K0", "K0 + E0 / a7 -> Q0", "Q0 + E1 -> P0", "EP + E4 [g4] / a8 -> Q0",
@@ -654,3 +656,25 @@ def completion_regions():
 
 
 ALL["completion_regions"] = completion_regions
+
+
+def internal_guard_only():
+    """guard-only rows (no action) in a state-local and in an sm-internal table, competing with table rows for the same event
+    (second seeded defect C14: the functor Internal<Event, none, Guard> row)"""
+    return {
+        "name": "internal_guard_only",
+        "events": ["E0", "E1", "E2", "E3"],
+        "machines": [
+            {"name": "Top", "regions": [["A", "B", "S"]], "kinds": {"S": "sub:Sub"},
+             "rows": ["A + E0 / a0 -> B", "A + E1 [g4] / a1 -> B", "B + E0 / a2 -> A", "A + E2 / a3 -> S", "S + E2 [g5] / a4 -> A", "B + E3 / a8 -> A"],
+             "internal": ["E3 [g0]"],
+             "state": {"A": {"internal": ["E0 [g1]", "E1 [g2] / a5"]}, "B": {"internal": ["E2 [!g3]"]}}},
+            {"name": "Sub", "regions": [["P", "Q"]],
+             "rows": ["P + E0 / a6 -> Q", "Q + E0 -> P", "P + E3 / a7 -> Q"],
+             "internal": ["E1 [g6]"],
+             "state": {"P": {"internal": ["E0 [g7 && g8]"]}}},
+        ],
+    }
+
+
+ALL["internal_guard_only"] = internal_guard_only
